@@ -64,7 +64,11 @@ def run_one(name, tier):
     finally:
         sh("git checkout -- .", cwd=REPO)
         sh("git clean -fdq pyrex tests", cwd=REPO)
-    res["caught"] = any(v.get("rc") == 1 for k, v in res.items() if k.startswith("check_"))
+    # evidence files must describe the unchanged tree: re-run the checks now that the patch is undone
+    for p in [prop] + meta.get("also_check", []):
+        rc, out = sh("/venv/bin/python -W ignore harness/check.py %s --tier quick" % p, cwd=VERIF)
+        res["clean_tree_after_undo_rc_%s" % p] = rc
+    res["caught"] = any(v.get("rc") == 1 for k, v in res.items() if k.startswith("check_") and isinstance(v, dict))
     return res
 
 
